@@ -163,3 +163,5 @@ def check(ctx):
                   Call(re.escape(CV) + "::wait", transitive=False), "wg/own-count-released-first", "the waiter gives up its own count before waiting for the others")
     C = "<may::sync::wait_group::WaitGroup as std::clone::Clone>::clone"
     ctx.order(C, Call(re.escape(MX) + "::lock", on=IN + ".count"), Agg(WG, "WaitGroup"), "wg/clone-counts-under-lock", "a clone is counted (under the lock) before it exists")
+    condvar_relock_keeps_guard(ctx)
+    mutex_cancel_arm_rules(ctx)
